@@ -71,9 +71,16 @@ class SchemaGen:
             t = self.tnames[i]
             body = self.ty(self.o.depth if i == 0 else self.o.depth - 1)
             if i > 0 and rng.random() < 0.25 and self.o.arrays:
-                # productive recursion through an array
-                self.note("recursive-rule")
-                body = ("or", body, ("arr", ("occ", 0, None, ("ent", None, False, ("ref", t)))))
+                # productive recursion through an array / a tag / a map value
+                how = rng.choice(["arr", "arr"] + (["tag", "tag"] if self.o.cbor else []) + (["map"] if self.o.maps else []))
+                self.note("recursive-rule:" + how)
+                if how == "arr":
+                    rec = ("arr", ("occ", 0, None, ("ent", None, False, ("ref", t))))
+                elif how == "tag":
+                    rec = ("tag", rng.choice([24, 42, 55799]), ("ref", t))
+                else:
+                    rec = ("map", ("occ", 0, 1, ("ent", ("lit", ("txt", "n")), True, ("ref", t))))
+                body = ("or", body, rec) if rng.random() < 0.7 else ("or", rec, body)
             bodies[t] = body
             if i > 0:
                 self.avail_t.append(t)
@@ -254,6 +261,14 @@ class SchemaGen:
                 items.append(e)
             if self.rng.random() < 0.4:
                 items.append(self.mentry(max(depth, 0), used, only=["wild"]))
+            if self.o.cbor and self.rng.random() < 0.3:
+                # a wildcard over a key class disjoint from the text keys may stand anywhere
+                kt = self.rng.choice(["uint", "int", "bstr"])
+                oc = self.rng.choice([(0, None), (1, None), (0, 1), None])
+                w = ("ent", ("ref", kt), False, self.ty(max(depth, 0)))
+                w = w if oc is None else ("occ", oc[0], oc[1], w)
+                self.note("mkey:disjoint-wild")
+                items.insert(self.rng.randrange(len(items) + 1), w)
         else:
             items = [self.mentry(max(depth, 0), used) for _ in range(n)]
         if self.flat_g and self.o.map_gref and self.rng.random() < 0.25:
@@ -401,7 +416,15 @@ class Inhabit:
                 return ("int", rng.choice([0, max(0, 256 ** n - 1), (256 ** n) // 2]))
             if name in ("bstr", "bytes"):
                 return ("byt", bytes(rng.randrange(256) for _ in range(n)))
-            return ("txt", "s" * n)
+            # byte length n in several spellings, and the look-alike with n CHARACTERS but more bytes
+            cands = ["s" * n]
+            if n >= 2:
+                cands += ["é" + "s" * (n - 2), "s" * (n - 2) + "é"]
+            if n >= 3:
+                cands += ["€" + "s" * (n - 3)]
+            if n >= 1:
+                cands += ["é" * n, "€" * n if n < 4 else "é" * n]
+            return ("txt", rng.choice(cands))
         if op in ("lt", "le", "gt", "ge") and arg[0] == "lit" and arg[1][0] in ("int", "flt"):
             b4 = arg[1][1] * (4 if arg[1][0] == "int" else 1)
             base = b4 // 4
